@@ -17,7 +17,7 @@ type member struct {
 	Coarse string // canonical form of the answer-relevant content (Fine plus: nil == empty for contexts and filter slices, ...)
 	Flat   string // diagnosis only: a lossy flattening; when two colliding members share it, the signature says so
 	Tricky bool   // separator/tag-laden, nested, reordered, ... (anything but a plain value)
-	Show   any // a value, or a func() any computed on demand
+	Show   any    // a value, or a func() any computed on demand
 }
 
 type component struct {
